@@ -15,7 +15,7 @@ FORM = ['rat.rat', 'compound', 'rat.int', 'compound-int', 'int.rat']
 
 def jobs(tier):
     js = []
-    B = 7 if tier == 'quick' else 12
+    B = 7 if tier == 'quick' else 9
     T = 280 if tier == 'quick' else 1500
     def add(name, entry, params, unwind=20, timeout=T, desc='', harness='C15_rational.cpp', narrow=0, backend=()):
         js.append(Job(name, harness, entry, ARITH_UNITS, unwind, params=params, flags=AR, timeout=timeout, desc=desc, narrow=narrow, backend=backend,
